@@ -606,7 +606,7 @@ Fixpoint match_pat (fuel : nat) (s : store) (p : pattern) (v : value) (e : env) 
                             binding happens under the id given by [rename] *)
                          match rename with
                          | Some x => go r (update x w e)
-                         | None => MStuck RUnsup
+                         | None => go r e          (* `key as _`: presence only, nothing bound *)
                          end
                      | Some None => MNo
                      | None => MStuck RFuel
